@@ -25,11 +25,12 @@ def intOf : Num → Option Int
   | .uint v => some v
   | .float _ => none
 
-/-- bit `i` of the 64-bit two's-complement pattern of an integer -/
-def bit (v : Int) (i : Nat) : Bool := (v / 2^i) % 2 == 1
+/-- the 64-bit two's-complement pattern of an integer, as a natural number -/
+def pattern (v : Int) : Nat := (v % 2^64).toNat
 
-/-- every bit (0..63) of the literal is set in the field -/
-def allBitsSet (lit field : Int) : Bool := (List.range 64).all (fun i => !bit lit i || bit field i)
+/-- every bit (0..63) of the literal's pattern is set in the field's pattern -/
+def allBitsSet (lit field : Int) : Bool :=
+  (List.range 64).all (fun i => !(pattern lit).testBit i || (pattern field).testBit i)
 
 end S
 end Gene
